@@ -384,3 +384,10 @@ mod c03_vstore {
         });
     }
 }
+
+// C02 (b14): called by `Batch::push` (guarded call in dzkp_validator.rs): the gate whose multiplication intermediates
+// are being recorded in a DZKP batch. Forwarded to the registry of harness/c02.rs, which only keeps gates of worlds it
+// started itself (run gate `protocol/c02w<k>`).
+pub fn c02_note_push(gate: &crate::protocol::Gate) {
+    crate::ipa_verif::c02::note_push(gate.as_ref());
+}
